@@ -370,9 +370,10 @@ class Result(object):
             'coverage': self.coverage, 'assumptions': self.assumptions,
             'wall_s': round(time.time() - self.t0, 2), 'violations': len(self.violations),
         }
-        os.makedirs(os.path.join(ROOT, 'evidence'), exist_ok=True)
-        with open(os.path.join(ROOT, 'evidence', self.pid + '.json'), 'w') as f:
-            json.dump(ev, f, indent=1, default=str, sort_keys=True)
+        if not os.environ.get('VERIF_CHILD'):       # a repetition under -O reports to its parent, which writes the evidence
+            os.makedirs(os.path.join(ROOT, 'evidence'), exist_ok=True)
+            with open(os.path.join(ROOT, 'evidence', self.pid + '.json'), 'w') as f:
+                json.dump(ev, f, indent=1, default=str, sort_keys=True)
         for k in dict.fromkeys(self.known):
             print('KNOWN-FINDING: property=%s %s' % (self.pid, k))
         if self.violations:
@@ -453,6 +454,8 @@ def audit(theorems, modules, thorough=False):
 
 def proof_coverage(res, theorems, modules, extra_obligations=0, extra_discharged=0):
     """run the audit and put the proof-level keys into the coverage dict; returns problems"""
+    if os.environ.get('VERIF_CHILD'):
+        return []                                    # the parent run has audited the proofs
     n, d, problems = audit(theorems, modules, thorough=(res.tier == 'thorough'))
     res.coverage.update({
         'obligations': n + extra_obligations,
